@@ -267,7 +267,10 @@ def rule_CP(run: Run) -> RuleResult:
     res.add("labrea.cache.Cached.validate:skip-only-when-exists", ok_v, f, vf.lineno if vf else ln, d_v or "inner validate skipped only on the exists branch",
             "validate must not pass for options the inner object cannot evaluate (C10)")
     # set handler
-    h = repo.func("labrea.cache._set_cache_handler")
+    from .rules_switch import handler_parts, switch_polarity
+    parts = handler_parts(run)
+    h = repo.func(parts["handlers"]["set"])
+    rq_p = [a.arg for a in h.node.args.args][0]
     hp = analyse_function(Ctx(repo), h.module, h.node)
     res.count("paths", len(hp))
     ok_h = True
@@ -276,8 +279,7 @@ def rule_CP(run: Run) -> RuleResult:
     for p in hp:
         if p.status != "ret":
             continue
-        disabled = any("_cache_disabled" in c[0] and c[1] for c in p.conds)
-        if disabled:
+        if switch_polarity(p, "LABREA.CACHE.DISABLED") is True:
             continue
         names = [e.text for e in p.events if e.kind == "call"]
         if "set" not in names:
@@ -289,7 +291,7 @@ def rule_CP(run: Run) -> RuleResult:
         r = p.ret
         rk = r.key() if r is not None else ""
         got = rk.startswith("call:get(") and "get" in names[i_set + 1:]
-        fallback = rk == "attr:value(request)"
+        fallback = rk == f"attr:value({rq_p})"
         if not (got or fallback):
             ok_h = False
             d_h = f"a path returns {rk[:80]}"
@@ -412,7 +414,15 @@ def rule_MC(run: Run) -> RuleResult:
                     continue
                 nm = astu.short_name(c)
                 if nm == "CacheSetRequest":
+                    # Cached.evaluate itself, or a private method of Cached that only Cached.evaluate (transitively) uses
                     ok = q.endswith("Cached.evaluate")
+                    if not ok and cls is not None and cls.name == "Cached":
+                        ci_ = repo.cls("Cached")
+                        users_ = {un for un, ufn in ci_.methods.items() if ufn is not fn
+                                  for x in ast.walk(ufn) if isinstance(x, ast.Attribute) and x.attr == fn.name and isinstance(x.value, ast.Name) and x.value.id in ("self", "Cached")}
+                        ok = bool(users_) and users_ <= {"evaluate"} | {mn for mn in astu.reachable_self_methods(ci_, ["evaluate"]) if mn not in ("validate", "keys", "explain")} \
+                            and fn.name not in astu.reachable_self_methods(ci_, ["validate"]) and fn.name not in astu.reachable_self_methods(ci_, ["keys"]) \
+                            and fn.name not in astu.reachable_self_methods(ci_, ["explain"])
                     res.add(f"{q}:constructs CacheSetRequest", ok, m.relpath, c.lineno,
                             f"CacheSetRequest constructed in {q}", "only Cached.evaluate, after computing, may request a store (C12, C18)")
                 if nm == "set" and isinstance(c.func, ast.Attribute) and len(c.args) == 3 and "cache" in ast.unparse(c.func.value).lower():
@@ -453,10 +463,10 @@ def rule_CE(run: Run) -> RuleResult:
         fns[q] = fn
     # handler registry: request class -> handler function names
     handlers: Dict[str, List[str]] = {}
-    for q, fn in fns.items():
-        for d in fn.decorator_list:
-            if isinstance(d, ast.Attribute) and d.attr == "handle":
-                handlers.setdefault(ast.unparse(d.value), []).append(q)
+    for req_, qs_ in astu.default_handler_registrations(repo).items():
+        for q_ in qs_:
+            if q_ in fns:
+                handlers.setdefault(req_, []).append(q_)
     # runtime.handle({Req: fn, ...}) swaps
     for n in ast.walk(cache_mod.tree):
         if isinstance(n, ast.Dict):
@@ -471,14 +481,18 @@ def rule_CE(run: Run) -> RuleResult:
         all_may[exc_name] = _may_raise(repo, cache_mod, fns, handlers, exc_name)
     may, direct_sites = all_may["CacheGetFailure"]
     raisers = sorted(q for q in may)
-    must_not = ["labrea.cache.Cached.evaluate", "labrea.cache.Cached.validate", "labrea.cache.Cache.exists",
-                "labrea.cache._set_cache_handler", "labrea.cache._exists_cache_handler",
-                "labrea.cache._disabled_set_cache_handler", "labrea.cache._disabled_exists_cache_handler"]
-    for q in must_not:
+    from .rules_switch import handler_parts
+    parts = handler_parts(run)
+    must_not = {"labrea.cache.Cached.evaluate": "labrea.cache.Cached.evaluate", "labrea.cache.Cached.validate": "labrea.cache.Cached.validate",
+                "labrea.cache.Cache.exists": "labrea.cache.Cache.exists",
+                parts["handlers"]["set"]: "labrea.cache._set_cache_handler", parts["handlers"]["exists"]: "labrea.cache._exists_cache_handler",
+                parts["twins"].get("set", "?set-twin"): "labrea.cache._disabled_set_cache_handler",
+                parts["twins"].get("exists", "?exists-twin"): "labrea.cache._disabled_exists_cache_handler"}
+    for q, label in must_not.items():
         if q not in fns:
-            raise AnalysisError(f"anchor {q} not found")
+            raise AnalysisError(f"anchor {q} ({label}) not found")
         bad = [(n, all_may[n][1].get(q)) for n in failures if q in all_may[n][0]]
-        res.add(f"{q}:CacheGetFailure-does-not-escape", not bad, cache_mod.relpath, fns[q].lineno,
+        res.add(f"{label}:CacheGetFailure-does-not-escape", not bad, cache_mod.relpath, fns[q].lineno,
                 "no cache failure can escape" if not bad else f"{bad[0][0]} may escape: {bad[0][1]}", nec)
     res.count("functions", len(fns))
     res.notes.append(f"may-raise CacheGetFailure: {raisers}")
